@@ -1133,6 +1133,9 @@ class ServiceInstance:
         asyncio.create_task(wait_cancelled(self._task))
         self._task = None
 
+        # offers that still wait in a send queue must not be overtaken by the StopOffer
+        self.announcer.flush_queued_offers(self.service)
+
         # cyclic tasks send stop when they are cancelled
         if not self.timings.CYCLIC_OFFER_DELAY:
             self._send_offer(stop=True)
@@ -1280,6 +1283,15 @@ class SendCollector(typing.Generic[KT]):
     def cancel(self) -> None:
         self._handle.cancel()
 
+    def flush(self) -> None:
+        """
+        transmit the collected data now instead of waiting for the timeout
+        """
+        if self.done:
+            return
+        self._handle.cancel()
+        self._handle_timeout()
+
 
 class ServiceAnnouncer:
     # TODO doc
@@ -1310,6 +1322,24 @@ class ServiceAnnouncer:
         # FIXME stops and starts for the same instance in the same queue make no sense
         # and should probably be cleaned out
         queue.append(entry)
+
+    def flush_queued_offers(self, service: someip.config.Service) -> None:
+        """
+        transmits all send queues that hold a not yet transmitted offer of the given service
+        immediately. Called when the service is being stopped.
+        """
+        for queue in list(self.send_queues.values()):
+            if queue.done:
+                continue
+            if any(
+                entry.sd_type == someip.header.SOMEIPSDEntryType.OfferService
+                and entry.ttl != 0
+                and entry.service_id == service.service_id
+                and entry.instance_id == service.instance_id
+                and entry.major_version == service.major_version
+                for entry in queue.data
+            ):
+                queue.flush()
 
     def announce_service(self, instance: ServiceInstance) -> None:
         if self.started:
